@@ -11,7 +11,8 @@ def run(crate, config, harnesses, features=None, no_default=False, stubbing=Fals
     key = hashlib.sha1(repr((crate, config, tuple(features or ()), no_default)).encode()).hexdigest()[:8]
     tdir = os.path.join(build.workdir(), "kani-%s-%s" % (crate, key))
     env = build.hook_env()
-    env["RUSTFLAGS"] = "--cfg curve25519_dalek_verif " + build.CONFIGS[config]
+    # Kani's compiler is a nightly: raise the macro recursion limit (stacked #[kani::stub] attributes nest deeply; the crates cannot be edited)
+    env["RUSTFLAGS"] = "--cfg curve25519_dalek_verif " + build.CONFIGS[config] + ' -Zcrate-attr=recursion_limit="1024"' 
     cmd = ["cargo", "kani", "--target-dir", tdir, "-j", str(jobs), "--output-format", "terse"]
     if stubbing: cmd += ["-Z", "stubbing"]
     if no_default: cmd.append("--no-default-features")
